@@ -3,14 +3,19 @@ package props
 import (
 	"context"
 	"fmt"
+	"reflect"
 	"sync"
 	"sync/atomic"
 	"testing"
+	"time"
 
 	"github.com/herohde/morlock/pkg/board"
+	"github.com/herohde/morlock/pkg/engine"
 	"github.com/herohde/morlock/pkg/eval"
 	"github.com/herohde/morlock/pkg/search"
+	"github.com/herohde/morlock/pkg/search/searchctl"
 	"pgregory.net/rapid"
+	"verifharness/gen"
 	"verifharness/stats"
 )
 
@@ -321,5 +326,139 @@ func TestC17_sequential(t *testing.T) {
 	}, func(c ttProgram) error {
 		stats.Sample("C17/sequential", c)
 		return checkC17Seq(c)
+	})
+}
+
+// ---------------------------------------------------------------------------------------
+// Engine level: a halted search is still unwinding on the table while the engine is reset and
+// its successor starts. Afterwards the fill fraction of every table the engine ever used must
+// count its occupied slots exactly once. The occupied slots are counted by reflection over the
+// table's slot array (read-only, after all searches have returned).
+
+type countingSearch struct {
+	inner    search.Search
+	inflight atomic.Int64
+	calls    atomic.Int64
+}
+
+func (c *countingSearch) Search(ctx context.Context, sctx *search.Context, b *board.Board, depth int) (uint64, eval.Score, []board.Move, error) {
+	c.inflight.Add(1)
+	c.calls.Add(1)
+	defer c.inflight.Add(-1)
+	return c.inner.Search(ctx, sctx, b, depth)
+}
+
+// quiesce waits until no search call is running and none has started for a while (a halted
+// analysis may still be between two iterations when its quit signal arrives).
+func (c *countingSearch) quiesce() bool {
+	deadline := time.Now().Add(uciGrace)
+	for time.Now().Before(deadline) {
+		before := c.calls.Load()
+		if c.inflight.Load() == 0 {
+			time.Sleep(3 * time.Millisecond)
+			if c.inflight.Load() == 0 && c.calls.Load() == before {
+				return true
+			}
+			continue
+		}
+		time.Sleep(200 * time.Microsecond)
+	}
+	return false
+}
+
+// occupiedSlots counts the non-empty slots of the repository's table by reflection.
+func occupiedSlots(tt search.TranspositionTable) (occupied, slots int, ok bool) {
+	v := reflect.ValueOf(tt)
+	for v.Kind() == reflect.Interface || v.Kind() == reflect.Ptr {
+		if v.IsNil() {
+			return 0, 0, false
+		}
+		v = v.Elem()
+	}
+	if v.Kind() != reflect.Struct {
+		return 0, 0, false
+	}
+	f := v.FieldByName("table")
+	if !f.IsValid() || f.Kind() != reflect.Slice {
+		return 0, 0, false
+	}
+	for i := 0; i < f.Len(); i++ {
+		if !f.Index(i).IsNil() {
+			occupied++
+		}
+	}
+	return occupied, f.Len(), true
+}
+
+type engineTTCase struct {
+	FENs     []string `json:"fens"`      // positions the engine is reset to, in turn
+	DelaysUS []int    `json:"delays_us"` // real time an analysis runs before the next reset
+	HashMB   uint     `json:"hash_mb"`
+}
+
+var checkC17Engine = def("C17/engine", func(c engineTTCase) error {
+	journal("C17/engine", c)
+	defer clearJournal()
+	ctx := context.Background()
+	var mu sync.Mutex
+	var tables []search.TranspositionTable
+	factory := func(ctx context.Context, size uint64) search.TranspositionTable {
+		t := search.NewTranspositionTable(ctx, size)
+		mu.Lock()
+		tables = append(tables, t)
+		mu.Unlock()
+		return t
+	}
+	cs := &countingSearch{inner: search.AlphaBeta{Eval: search.Leaf{Eval: SynthEval{}}}}
+	e := engine.New(ctx, "verif", "verif", cs, engine.WithOptions(engine.Options{Hash: c.HashMB}), engine.WithTable(factory))
+	for i, f := range c.FENs {
+		if err := e.Reset(ctx, f); err != nil {
+			return err
+		}
+		if _, err := e.Analyze(ctx, searchctl.Options{}); err != nil {
+			return fmt.Errorf("Analyze: %v", err)
+		}
+		if d := c.DelaysUS[i%len(c.DelaysUS)]; d > 0 {
+			time.Sleep(time.Duration(d) * time.Microsecond)
+		}
+	}
+	_, _ = e.Halt(ctx)
+	if !cs.quiesce() { // every search, halted or not, has returned: the tables are quiet
+		return fmt.Errorf("searches still running %v after the engine was halted", uciGrace)
+	}
+	observable := 0
+	for i, t := range tables {
+		occ, slots, ok := occupiedSlots(t)
+		if !ok {
+			continue
+		}
+		observable++
+		u := t.Used()
+		if u < 0 || u > 1 {
+			return fmt.Errorf("table #%d: Used() = %v, outside [0,1]", i, u)
+		}
+		if got := int(u*float64(slots) + 0.5); got != occ {
+			return fmt.Errorf("table #%d of %d (engine reset %d times while searches were in flight): Used() x slots = %d, but %d slots hold an entry", i, len(tables), len(c.FENs), got, occ)
+		}
+	}
+	lab := "tables-observable"
+	if observable == 0 {
+		lab = "tables-not-observable"
+	}
+	stats.Case("C17/engine", stats.FP(fmt.Sprint(c)), len(c.FENs) >= 2 && observable > 0, lab)
+	return nil
+})
+
+func TestC17_engine(t *testing.T) {
+	runRapid(t, "C17/engine", 300, func(t *rapid.T) engineTTCase {
+		c := engineTTCase{HashMB: 1}
+		for i, n := 0, rapid.IntRange(2, 6).Draw(t, "resets"); i < n; i++ {
+			c.FENs = append(c.FENs, gen.Pool[rapid.IntRange(0, len(gen.Pool)-1).Draw(t, "pool")])
+			c.DelaysUS = append(c.DelaysUS, rapid.SampledFrom([]int{0, 20, 200, 1500}).Draw(t, "delay"))
+		}
+		return c
+	}, func(c engineTTCase) error {
+		stats.Sample("C17/engine", c)
+		return checkC17Engine(c)
 	})
 }
